@@ -3,7 +3,7 @@
   sources --R1,R2--> items --R3..R10 + contract injection--> build/<fs>/rsactor_vx.rs
 """
 import os, re, json, hashlib, difflib
-from .lex import Code, apply_edits, OPEN, CLOSE
+from .lex import Code, apply_edits, OPEN, CLOSE, LexError
 from .passes import (Unsupported, strip_comments, resolve_cfg, drop_attrs, parse_items, find_item,
                      norm, Item)
 from . import rules as R
@@ -102,6 +102,35 @@ def name_return(sig, ret):
         return sig, False
     end = c.pos(b) if b < len(c) else len(sig)
     return sig[:c.pos(a)] + "(%s: %s) " % (ret, ty) + sig[end:], True
+
+
+def param_names(sig):
+    """names of the parameters of a fn signature, without self/this receivers and without the World parameter"""
+    c = Code(sig)
+    k = c.find_seq(0, "fn")
+    j = k + 2
+    if c.t(j) == "<":
+        depth = 0
+        while True:
+            if c.t(j) == "<": depth += 1
+            elif c.t(j) == ">":
+                depth -= 1
+                if depth == 0: break
+            j += 1
+        j += 1
+    if c.t(j) != "(":
+        return []
+    names = []
+    for a, b in R.split_args(c, j):
+        toks = [c.t(q) for q in range(a, b)]
+        if "self" in toks[:3]:
+            continue
+        q = a
+        if c.t(q) == "mut": q += 1
+        nm = c.t(q)
+        if c.t(q + 1) == ":" and nm not in ("w", "this"):
+            names.append(nm)
+    return names
 
 
 def split_fn(text):
@@ -270,6 +299,9 @@ class Gen:
         sp.loader.exec_module(self.specs)
         self.report = []       # per extracted item: file, name, rules, diff
         self._lift_ctx = None
+        self.fn_keys_with_body = set()
+        self.assume = set()          # function keys whose contract is assumed (outside the rules / rejected by Verus)
+        self.assume_reasons = {}
         self.macros = {}
         self.statics = set(self.specs.STATICS)
         for it in self.src.items["actor.rs"]:
@@ -280,13 +312,36 @@ class Gen:
 
     # ---- one function
     def fn_text(self, file, item, key, lifted_name=None, self_ty=None):
+        """extract one function; if it is outside the rules (or listed in self.assume) fall back to its contract ASSUMED
+        (external_body): the properties it serves become undecided, the others stay decidable."""
+        if item.body is not None:
+            self.fn_keys_with_body.add(key)
+        if key in self.assume and item.body is not None:
+            return self._fn_text_full(file, item, key, lifted_name, self_ty, assumed=True)
+        try:
+            return self._fn_text_full(file, item, key, lifted_name, self_ty)
+        except (Unsupported, LexError) as e:
+            if item.body is None:
+                raise
+            self.assume.add(key)
+            self.assume_reasons[key] = "extraction: %s" % e
+            return self._fn_text_full(file, item, key, lifted_name, self_ty, assumed=True)
+
+    def _fn_text_full(self, file, item, key, lifted_name=None, self_ty=None, assumed=False):
         spec = self.specs.SPECS.get(key, {})
         if callable(spec):
             spec = spec(self.features)
         spec = dict(spec)
         spec.update(self._lift_ctx or {})
         src_text = item.text
-        t = src_text
+        if assumed:
+            # keep only the signature: the body is replaced, no rule that could fail is applied to it
+            sg, _b = split_fn(src_text)
+            src_text_used = sg + "{ }"
+            spec = {k: v for k, v in spec.items() if k not in ("loops", "proofs", "raii", "dyn_calls")}
+        else:
+            src_text_used = src_text
+        t = src_text_used
         applied = []
 
         def ap(name, f, *a):
@@ -343,16 +398,31 @@ class Gen:
             applied.append("R10")
         ret = spec.get("ret", "r")
         sig, has_ret = name_return(sig, ret)
+        # `$1`, `$2` .. in clause expressions = names of the function's (non-self, non-World) parameters
+        pnames = param_names(sig)
+        def subst(clauses):
+            out = []
+            for (l, p_, e) in clauses or []:
+                for i, nm in enumerate(pnames, 1):
+                    e = e.replace("$%d" % i, nm)
+                if re.search(r"\$\d", e):
+                    raise Unsupported("contract of %s refers to a parameter the function no longer has" % key)
+                out.append((l, p_, e))
+            return out
         lines = []
         for a in spec.get("attrs", []):
             lines.append(a)
+        if assumed:
+            lines.append("#[verifier::external_body] /*ASSUMED:%s*/" % key)
         lines.append(sig.rstrip())
-        lines += clause_lines("requires", spec.get("requires"))
-        lines += clause_lines("ensures", spec.get("ensures"))
+        lines += clause_lines("requires", subst(spec.get("requires")))
+        lines += clause_lines("ensures", subst(spec.get("ensures")))
         if spec.get("decreases"):
             lines.append("    decreases %s," % spec["decreases"])
         if body is None:
             out = "\n".join(lines) + ";"
+        elif assumed:
+            out = "\n".join(lines) + "\n{ unimplemented!() }"
         else:
             body = inject_loops(body, spec.get("loops", {}), key)
             body = "{ /*V0*/ " + body[1:]
